@@ -31,9 +31,12 @@ func c02Random(seed uint64, i int, ntexts int) *c01Case {
 	pg := gen.NewPG(rng, sc)
 	p := pg.FindProgram()
 	if rng.Chance(1, 3) {
-		// named loops: bindings made inside go to the loop's per-iteration maps
+		// named loops: bindings made inside go to the loop's per-iteration maps - also inside stored patterns
 		n := 0
 		p.Commands[0].Body = gen.NameLoops(rng, p.Commands[0].Body, &n)
+		for gi := range p.Globals {
+			p.Globals[gi].Body = gen.NameLoops(rng, p.Globals[gi].Body, &n)
+		}
 	}
 	if caps := gen.CaptureNames(p.Commands[0].Body); len(caps) > 0 && rng.Chance(1, 5) {
 		// an unrelated stored pattern that carries the name of a capture: in this command the name is the capture
@@ -245,6 +248,14 @@ func enumCaptureShapes() []*gen.Program {
 				// a capture whose body calls the subroutine it stands in: the same name is open at several call levels
 				mk(gen.SubDef{Name: "s", Body: []gen.Node{cap("x", gen.Seq{Items: []gen.Node{A, gen.Loop{Min: 0, Max: 1, Form: "maybe", Body: gen.SubCall{Name: "s"}}}}), gen.BackRef{Name: "x"}}}, gen.Loop{Min: 0, Max: 1, Form: "maybe", Body: C})
 				mk(gen.SubDef{Name: "s", Body: []gen.Node{A, gen.Loop{Min: 0, Max: -1, Form: "atleast", Name: "r", Body: gen.Seq{Items: []gen.Node{cap("x", gen.Or{Alts: []gen.Node{gen.SubCall{Name: "s"}, C}})}}}, B}})
+				// a named loop with a capture INSIDE A STORED PATTERN: its bindings stay in the loop's scope when the
+				// pattern is relocated into a command that binds the same name itself
+				progs = append(progs, &gen.Program{
+					Globals:  []gen.Global{{Name: "gw", Body: []gen.Node{gen.Loop{Min: 1, Max: -1, Form: "atleast", Name: "w", Body: gen.Seq{Items: []gen.Node{cap("x", A)}}}}}},
+					Commands: []gen.Command{{Amount: gen.Amount{Kind: "all"}, Body: []gen.Node{cap("x", B), gen.GlobalRef{Name: "gw"}, gen.Loop{Min: 0, Max: 1, Form: "maybe", Body: gen.BackRef{Name: "x"}}, gen.Loop{Min: 0, Max: 1, Form: "maybe", Body: C}}}}})
+				progs = append(progs, &gen.Program{
+					Globals:  []gen.Global{{Name: "gw", Body: []gen.Node{gen.Loop{Min: 0, Max: 2, Form: "atmost", Name: "w", Body: gen.Seq{Items: []gen.Node{cap("y", A), gen.Loop{Min: 0, Max: 1, Form: "maybe", Body: B}}}}}}},
+					Commands: []gen.Command{{Amount: gen.Amount{Kind: "all"}, Body: []gen.Node{gen.GlobalRef{Name: "gw"}, C, gen.GlobalRef{Name: "gw"}}}}})
 				// two names that differ only in letter case are two names: a back-reference to the unbound one fails
 				mk(cap("x", A), gen.Or{Alts: []gen.Node{gen.Seq{Items: []gen.Node{cap("X", B)}}, C}}, gen.BackRef{Name: "X"})
 				// empty capture and its back-reference
@@ -271,7 +282,7 @@ func C02(r *drv.Run) {
 	if !quick(r) {
 		nprog, ntext = 100000, 16
 	}
-	r.Rule = "capture-heavy generator: `= name` bindings inside first alternatives that then fail, inside maybe/at most/at least 0 iterations that get abandoned, inside recursive subroutines, followed by back-references; inputs are near misses derived from the program; a quarter of the programs under a random amount clause (skip / take / top / last: expected = that window of the reference's list); plus an exhaustive family of 16 capture shapes (one with two names differing only in letter case) (4 of them inside named loops, directly / under an inner unnamed loop / under an inner named loop) x 4^3 literal choices x all texts over {a,b} up to length 4; and 4 shapes with an OPTIONAL capture on the path tried last (last alternative, lazy loop body, lazy optional) x 3^3 literals x all texts over {a,b,c} up to length 4. Long bindings: `line start whole line = x` then a line feed and a back-reference to x on two-line texts whose first line has 100 .. 70 000 bytes (thorough: .. 1 MiB + 1; lengths on both sides of 4 096 and 65 536) and whose second line is the first, differs in its first / middle / last / last-but-one / 65 535th / 65 536th byte, is longer or one byte shorter (expected from the text alone). Oracle: reference backtracker with a persistent environment gives the exact expected variable map of every match (spans AND flat variables must equal). Non-trivial = expected match carries >= 1 binding AND the VM backtracked; distinct by (program, text). One random program in thirty has 9..101 captures in a row followed by 1..6 back-references to some of them (last one included), on texts with matching and nearly matching blocks."
+	r.Rule = "capture-heavy generator: `= name` bindings inside first alternatives that then fail, inside maybe/at most/at least 0 iterations that get abandoned, inside recursive subroutines, followed by back-references; inputs are near misses derived from the program; a quarter of the programs under a random amount clause (skip / take / top / last: expected = that window of the reference's list); plus an exhaustive family of 18 capture shapes (two with a named loop that captures inside a stored pattern) (one with two names differing only in letter case) (4 of them inside named loops, directly / under an inner unnamed loop / under an inner named loop) x 4^3 literal choices x all texts over {a,b} up to length 4; and 4 shapes with an OPTIONAL capture on the path tried last (last alternative, lazy loop body, lazy optional) x 3^3 literals x all texts over {a,b,c} up to length 4. Long bindings: `line start whole line = x` then a line feed and a back-reference to x on two-line texts whose first line has 100 .. 70 000 bytes (thorough: .. 1 MiB + 1; lengths on both sides of 4 096 and 65 536) and whose second line is the first, differs in its first / middle / last / last-but-one / 65 535th / 65 536th byte, is longer or one byte shorter (expected from the text alone). Oracle: reference backtracker with a persistent environment gives the exact expected variable map of every match (spans AND flat variables must equal). Non-trivial = expected match carries >= 1 binding AND the VM backtracked; distinct by (program, text). One random program in thirty has 9..101 captures in a row followed by 1..6 back-references to some of them (last one included), on texts with matching and nearly matching blocks."
 	r.Assumptions = []string{
 		"named-loop variable maps are compared after dropping iteration entries that hold nothing (vore opens the map of an iteration before it knows whether the iteration will run)",
 		"reference matcher semantics as in C01 (word-anchor boundary cases are don't-care)",
